@@ -170,6 +170,27 @@ def check_case(r, s, rng, fmt):
             if (Dd == F) != want_complete:
                 bad('default-mode-wrong', 'default output is %s but the metadata (%s) calls for %s' % ('complete' if Dd == F else 'snippet', [k for k, _ in pairs], 'complete' if want_complete else 'snippet'), '')
     r.stats['relation2_checked'] += 1
+    if has_neutral and S != F and rng.random() < 0.25:
+        # the complete/snippet decision belongs to the document, not to the engine: the same engine converts this document (complete), then -- after the
+        # caller replaced the text it shares with the engine -- the bare body, which carries no metadata: that second result must be the snippet of the body
+        S0 = c.out(body, E['SNIPPET'])
+        F0 = c.out(body, E['COMPLETE'])
+        hist = [D.req_to_json('asan', 'ENGINE', 0, c.base, 0, 0 | (1 << 4), [src]),
+                D.req_to_json('asan', 'ENGINE', D.FMT[fmt], 0, 0, 0 | (3 << 4), [b'']),
+                D.req_to_json('asan', 'ENGINE', 0, 0, 0, 0 | (15 << 4), [body]),
+                D.req_to_json('asan', 'ENGINE', D.FMT[fmt], 0, 0, 0 | (3 << 4), [b''])]
+        rep = None
+        for k, rq in enumerate(hist):
+            rep = s.call('asan', *D.req_from_json(rq), history=hist[:k], crash_is_violation=False)
+            r.evaluations += 1
+            if rep is None:
+                break
+        if rep is not None:
+            s.call('asan', 'ENGINE', 0, 0, 0, 0 | (9 << 4), [b''], crash_is_violation=False)
+            r.stats['engine_reuse_mode_decisions_checked'] += 1
+            if rep.status == 0 and S0 is not None and F0 is not None and S0 != F0 and rep.out != S0:
+                r.violate('default-mode-wrong:%s:engine-reused' % fmt, 'an engine that first converted a document with metadata renders a following metadata-free text as %s' %
+                          ('the complete document' if rep.out == F0 else 'something that is neither snippet nor complete document'), dict(requests=hist), core.show(src, 300) + '\nthen: ' + core.show(body, 200))
     if uses_vars:
         r.stats['documents_with_variable_substitution'] += 1
         if len(body) > 40:
